@@ -75,6 +75,8 @@ class SStr(str):
 
     def __pyvc_in__(self, container):
         """self in container"""
+        if container is None:
+            raise TypeError("argument of type 'NoneType' is not iterable")
         if isinstance(container, str):
             return SBool(z3.Contains(sval(container), self.term))
         if isinstance(container, (list, tuple, set, frozenset, dict)):
@@ -101,6 +103,9 @@ class SStr(str):
 
     def __pyvc_len__(self):
         return SNum(z3.Length(self.term), False, "pyi")
+
+    def __bool__(self):
+        return bool(SBool(z3.Length(self.term) > 0))
 
     def isalpha(self):
         letter = z3.Union(z3.Range("a", "z"), z3.Range("A", "Z"))
@@ -159,3 +164,66 @@ def _pyvc_float(self):
 
 
 SStr.__pyvc_float__ = _pyvc_float
+
+
+# =========================================================================== re model
+import re as _real_re  # noqa: E402
+
+
+def _class_re(spec):
+    """z3 regex of a single-character class body such as '0-9_' or '_a-zA-Z0-9'"""
+    parts = []
+    i = 0
+    while i < len(spec):
+        if i + 2 < len(spec) and spec[i + 1] == "-":
+            parts.append(z3.Range(spec[i], spec[i + 2]))
+            i += 3
+        else:
+            parts.append(z3.Re(spec[i]))
+            i += 1
+    return parts[0] if len(parts) == 1 else z3.Union(*parts)
+
+
+def char_at(t, i):
+    return z3.SubString(t, alg.lift(i), z3.IntVal(1))
+
+
+class _ReModel:
+    """`re` as seen by the modules under verification: calls on real strings go to the real module;
+    on symbolic strings two single-character-class patterns are modelled point-wise:
+        re.match("^[CLASS]", s)          truth value: s starts with a character of CLASS
+        re.sub("[^CLASS]", repl, s)      every character outside CLASS replaced by repl (len(repl) == 1)"""
+
+    def __getattr__(self, name):
+        return getattr(_real_re, name)
+
+    def match(self, pattern, s, flags=0):
+        if not has_symbolic(s):
+            return _real_re.match(pattern, s, flags)
+        m = _real_re.fullmatch(r"\^\[([^\]\^]+)\]", pattern)
+        if not m:
+            raise Unsupported("re.match pattern %r on a symbolic string" % pattern)
+        cur().use("re.match on a single-character class")
+        t = sval(s)
+        cls = _class_re(m.group(1))
+        return SBool(z3.And(z3.Length(t) >= 1, z3.InRe(char_at(t, 0), cls)))
+
+    def sub(self, pattern, repl, s, count=0, flags=0):
+        if not has_symbolic(s):
+            return _real_re.sub(pattern, repl, s, count, flags)
+        m = _real_re.fullmatch(r"\[\^([^\]]+)\]", pattern)
+        if not m or len(repl) != 1 or count != 0:
+            raise Unsupported("re.sub pattern %r on a symbolic string" % pattern)
+        c = cur()
+        c.use("re.sub of a negated single-character class")
+        t = sval(s)
+        cls = _class_re(m.group(1))
+        r = c.fresh("resub", S)
+        c.assume(z3.Length(r) == z3.Length(t))
+        rep = z3.StringVal(repl)
+        c.add_fact("re.sub-pointwise", lambda i: alg.implies(alg.and_(alg.le(0, i), alg.lt(i, z3.Length(t))), char_at(r, i) == z3.If(z3.InRe(char_at(t, i), cls), char_at(t, i), rep)))
+        out = SStr(r)
+        return out
+
+
+RE = _ReModel()
